@@ -80,6 +80,43 @@ fn gen_coin_spends(s: &mut Src<'_>) -> (Vec<CoinSpend>, Tree, u32, usize, Vec<St
     let mut b = condgen::gen_bundle(s, &cfg);
     let shared = s.chance(120);
     let mut out = vec![];
+    // rarely: a bundle whose PLAIN serialization approaches or exceeds a
+    // megabyte while its content is highly repetitive (two spends carrying the
+    // same very large atom, or thousands of spends sharing one puzzle) — the
+    // regime where byte pricing, interned pricing and compression differ most
+    let bulk = s.below(500);
+    if bulk >= 498 {
+        let t = &mut b.tree;
+        let phs = condgen::tag_puzzle_hashes();
+        let pz = condgen::tagged_identity(t, 1);
+        let mut spends = vec![];
+        if bulk == 498 {
+            let n = 400_000 + s.below(120_000);
+            let big = vec![0x5au8; n];
+            let op = t.atom(&[1]);
+            let ba = t.atom(&big);
+            let remark = t.list(&[op, ba]);
+            let sol = t.list(&[remark]);
+            for i in 0..2u8 {
+                let mut parent = [0x77u8; 32];
+                parent[31] = i;
+                spends.push(proglevel::coin_spend(t, parent, phs[0], 1000 + u64::from(i), pz, sol));
+            }
+        } else {
+            let n = 2800 + s.below(600);
+            let filler = vec![0x33u8; 280];
+            let op = t.atom(&[1]);
+            let fa = t.atom(&filler);
+            let remark = t.list(&[op, fa]);
+            let sol = t.list(&[remark]);
+            for i in 0..n {
+                let mut parent = [0x78u8; 32];
+                parent[28..32].copy_from_slice(&(i as u32).to_be_bytes());
+                spends.push(proglevel::coin_spend(t, parent, phs[0], 1, pz, sol));
+            }
+        }
+        return (spends, b.tree, 1, 1, vec!["bulk-repetitive-bundle".to_string(), "shared-subtrees".to_string()]);
+    }
     // a blob shared between several spends
     let blob_len = s.range(1, 200);
     let blob = s.bytes(blob_len);
@@ -171,17 +208,21 @@ pub fn case_paths(bytes: &[u8], ctx: &mut Ctx) -> CaseResult {
         let (g, _sig, _cost) = ib.finalize().ok()?;
         Some(g)
     })();
-    vensure!(built_compressed.is_some(), "C08:builder:compressed-builder-refused-small-bundle", "BlockBuilder did not add a single small bundle with declared cost 0");
-    vensure!(built_interned.is_some(), "C08:builder:interned-builder-refused-small-bundle", "InternedBlockBuilder did not add a single small bundle with declared cost 0");
-    let b_bc = block(built_compressed.as_ref().unwrap(), flags);
-    let b_bi = block(built_interned.as_ref().unwrap(), flags);
+    let bulk_case = labels.iter().any(|l| l == "bulk-repetitive-bundle");
+    if !bulk_case {
+        vensure!(built_compressed.is_some(), "C08:builder:compressed-builder-refused-small-bundle", "BlockBuilder did not add a single small bundle with declared cost 0");
+        vensure!(built_interned.is_some(), "C08:builder:interned-builder-refused-small-bundle", "InternedBlockBuilder did not add a single small bundle with declared cost 0");
+    }
+    let b_bc = built_compressed.as_ref().map(|g| block(g, flags));
+    let b_bi = built_interned.as_ref().map(|g| block(g, flags));
 
-    let paths: [(&str, &RunResult, &[u8]); 4] = [
-        ("plain-generator", &b_plain, &plain),
-        ("backref-generator", &b_comp, &compressed),
-        ("compressed-builder", &b_bc, built_compressed.as_ref().unwrap()),
-        ("interned-builder", &b_bi, built_interned.as_ref().unwrap()),
-    ];
+    let mut paths: Vec<(&str, &RunResult, &[u8])> = vec![("plain-generator", &b_plain, &plain), ("backref-generator", &b_comp, &compressed)];
+    if let (Some(r), Some(g)) = (&b_bc, &built_compressed) {
+        paths.push(("compressed-builder", r, g));
+    }
+    if let (Some(r), Some(g)) = (&b_bi, &built_interned) {
+        paths.push(("interned-builder", r, g));
+    }
     match &mempool {
         Err(e) => {
             ctx.label("mempool:rejected");
@@ -264,7 +305,7 @@ pub fn property() -> Property {
             run: case_paths,
             inflight: false,
             min_nontrivial: 10_000,
-            required_labels: &["mempool:accepted", "mempool:rejected", "pricing:interned", "pricing:bytes", "shared-subtrees"],
+            required_labels: &["mempool:accepted", "mempool:rejected", "pricing:interned", "pricing:bytes", "shared-subtrees", "bulk-repetitive-bundle"],
         }],
         death_is_violation: false,
     }
